@@ -67,6 +67,7 @@ class System:
 
     def __init__(self, rng, tag, power_of_two=True, n_dims=None, compound=True, bridge=False):
         self.tag = tag
+        self.rng = rng
         self.bridge = bridge
         self.shipped = set()
         self.units = {}   # name -> (dimname, size Fraction)
@@ -163,6 +164,12 @@ class System:
 
     def declare_op(self, edge, rng=None):
         a, k, rhs = edge
+        rng = rng or getattr(self, "rng", None)
+        if rng is not None and rng.random() < 0.2:
+            # the same equivalence stated from a *prefixed* form of the unit: (2**e * a) = (2**e * k) * rhs - the prefix of
+            # the declaring unit counts (binary prefixes keep the system exact)
+            e = rng.choice([1, 3, 10, -2])
+            return ["declare", ["pfxraw", 2, e, ["u", a]], enc_fraction(k * Fraction(2) ** e), self.rhs_term(rhs)]
         return ["declare", ["u", a], enc_fraction(k), self.rhs_term(rhs)]
 
     def redeclare_leaf(self, rng):
